@@ -925,7 +925,17 @@ func (g *c06Gen) opNotify(u int) {
 	case 0, 1, 2:
 		g.send(u, "notifications.CreateNotification", &notiftypes.MsgCreateNotification{Creator: creator, To: to, Contents: fmt.Sprintf("{\"n\":%d}", g.p.Intn(1000)), PrivateContents: g.p.Bytes(8)})
 	case 3:
-		g.send(u, "notifications.BlockSenders", &notiftypes.MsgBlockSenders{Creator: creator, ToBlock: []string{to}})
+		// several senders at once, sometimes with a name nobody registered in the middle (the list is then refused
+		// part-way: what was handled before the refusal, and what it cost, must be the same on every node)
+		list := []string{to}
+		for i := 0; i < 2+g.p.Intn(5); i++ {
+			list = append(list, g.accts[g.user(g.p.Intn(g.cfg.NUsers))].Addr.String())
+		}
+		if g.p.Chance(1, 2) {
+			at := g.p.Intn(len(list) + 1)
+			list = append(list[:at], append([]string{"nobody-registered-this.jkl"}, list[at:]...)...)
+		}
+		g.send(u, "notifications.BlockSenders", &notiftypes.MsgBlockSenders{Creator: creator, ToBlock: list})
 	}
 }
 
